@@ -114,4 +114,20 @@ def moveToConsumer (R : Rules) (s : Slice) (c : Consumer) : Option Consumer :=
 /-- a 4-D tensor as a function of its coordinates; reading it through an offset -/
 def readAt {α : Type} (X : List Int → α) (off : Shape) : List Int → α := fun i => X (addShape off i)
 
+/-! ## `bypass_memory_only_ops` -/
+
+inductive Bypass | untouched | memcpy | bypass
+  deriving Repr, DecidableEq
+
+/-- what `bypass_memory_only_ops` does with an operator: `nCons` = `len(op.ifm.consumer_list)`, `producersNpu` = `run_on_npu` of
+    the producers of the IFM (`None` producers are skipped by the code) -/
+def bypassDecision (runOnNpu memoryOnly : Bool) (nCons : Nat) (producersNpu : List Bool) : Bypass :=
+  if !runOnNpu || !memoryOnly then .untouched
+  else if nCons > 1 || producersNpu.any (!·) then .memcpy
+  else .bypass
+
+/-- after a bypass every producer of the IFM writes the memory-only operator's OFM instead (`prev_op.outputs = [ofm]`): the number
+    of outputs a producer loses -/
+def outputsLost (producerOutputs : Nat) : Nat := producerOutputs - 1
+
 end VelaVerif.SliceRead
